@@ -38,3 +38,15 @@ Print Assumptions C03_rq_bin_onto_and_pinned.
 Theorem C03_exp_onto_positive_reals : forall y : R, 0 < y -> exp_fwd_ret0 Rops (exp_inv_ret0 Rops y) = y.
 Proof. intros y Hy. apply (exp_round_trip 0 y Hy). Qed.
 Print Assumptions C03_exp_onto_positive_reals.
+
+(* the whole rational-quadratic spline maps [left, right] ONTO [bottom, top]: every value of the target interval is attained *)
+From NF Require Import Base.Result Model.SplineRQ Proofs.SplineRQWhole.
+Theorem C03_rq_whole_spline_onto :
+  forall (c : @rq_cfg R) (bx : @box R) (uw uh ud : list R), rq_wellformed c bx uw uh ud ->
+  forall y, b_bottom bx <= y <= b_top bx -> exists x, (b_left bx <= x <= b_right bx) /\ F c bx uw uh ud x = y.
+Proof.
+  intros c bx uw uh ud [H1 [H2 [H3 [H4 [H5 [H6 [H7 [H8 [H9 [H10 H11]]]]]]]]]] y Hy.
+  destruct (whole_forward_of_inverse c bx uw uh ud H1 H2 H3 H4 H5 H6 H7 H8 H9 H10 H11 y Hy) as [x [l [_ [Hx [E _]]]]].
+  exists x. split; assumption.
+Qed.
+Print Assumptions C03_rq_whole_spline_onto.
